@@ -97,12 +97,51 @@ Proof.
   cbn in H. destruct (c s) eqn:E; [apply (IH (b s)); auto | congruence].
 Qed.
 
-(* simulation against a fuelled model loop that returns its accumulator when the fuel is out or the test fails:
-   [step] is one iteration of the model on an abstract state, [abs] maps concrete states to abstract ones *)
 Lemma while_measure {S} (m : S -> nat) (c : S -> bool) b :
   (forall s, c s = true -> (m (b s) < m s)%nat) ->
   forall f s, (m s < f)%nat -> exists r, while f c b s = Some r.
 Proof.
   intros Hm f; induction f as [|f IH]; intros s Hf; [lia|].
   cbn. destruct (c s) eqn:E; [apply IH; specialize (Hm s E); lia | eauto].
+Qed.
+
+(* One-step simulation against a fuelled model loop.  [A] is the model's state, [R a s] says that the model state
+   [a] represents the state [s] of the translated loop (it carries the loop invariant), [model f a] is the model
+   loop with [f] iterations of fuel left (returning its accumulator when the fuel is out or its test fails), [out]
+   reads the result off the final state of the translated loop, [m] is a measure that bounds the iterations.
+     stop: where the translated test fails, the model returns what the state holds, whatever its fuel;
+     step: where the translated test holds, the body leads to a represented state, the measure drops and the
+           model makes one step.
+   Then [S f] units of fuel (f iterations and the final test) suffice whenever the measure is at most [f], and the
+   two loops agree.  Only [stop] and [step] look at the loop body: an edit of the Go source that keeps each
+   iteration's effect keeps the proof. *)
+Lemma while_simulates {A S T} (R : A -> S -> Prop) (m : A -> nat) (model : nat -> A -> T) (out : S -> T)
+      (c : S -> bool) (b : S -> S) :
+  (forall f a s, R a s -> c s = false -> model f a = out s) ->
+  (forall f a s, R a s -> c s = true ->
+     exists a', R a' (b s) /\ (m a' < m a)%nat /\ model (Datatypes.S f) a = model f a') ->
+  forall f a s, R a s -> (m a <= f)%nat ->
+  exists r, while (Datatypes.S f) c b s = Some r /\ model f a = out r /\ c r = false.
+Proof.
+  intros Hstop Hstep f; induction f as [|f IH]; intros a s HR Hm.
+  - cbn. destruct (c s) eqn:E.
+    + destruct (Hstep 0%nat a s HR E) as (a' & _ & Hlt & _). lia.
+    + exists s. repeat split; [apply Hstop; assumption | exact E].
+  - rewrite while_unroll. destruct (c s) eqn:E.
+    + destruct (Hstep f a s HR E) as (a' & HR' & Hlt & Hmod).
+      destruct (IH a' (b s) HR') as (r & Hw & Hr & Hc); [lia|].
+      exists r. repeat split; [exact Hw | rewrite Hmod; exact Hr | exact Hc].
+    + exists s. repeat split; [apply Hstop; assumption | exact E].
+Qed.
+
+(* the same for a loop whose model is a closed form rather than a fuelled function: an invariant [R] relating the
+   state to a ghost value, a measure, and the result read off any state where the test fails *)
+Lemma while_total {S} (I : S -> Prop) (m : S -> nat) (c : S -> bool) (b : S -> S) :
+  (forall s, I s -> c s = true -> I (b s) /\ (m (b s) < m s)%nat) ->
+  forall f s, I s -> (m s < f)%nat -> exists r, while f c b s = Some r /\ I r /\ c r = false.
+Proof.
+  intros Hb f; induction f as [|f IH]; intros s Hs Hf; [lia|].
+  rewrite while_unroll. destruct (c s) eqn:E.
+  - destruct (Hb s Hs E) as [Hi Hlt]. apply IH; [exact Hi | lia].
+  - exists s. auto.
 Qed.
